@@ -53,8 +53,10 @@ def corrupt_sessions(rnd, n):
         if not cands:
             continue
         k = rnd.choice(cands)
-        how = rnd.choice(["cut", "cut", "cut", "flip", "encap", "status32"])
-        if how == "cut":
+        how = rnd.choice(["cut", "trunc", "trunc", "flip", "encap", "status32"])
+        if how == "trunc":
+            c = ["trunc", rnd.choice([24, 30, 32, 36, 38, 39, 40, 41, 42, 43, 44, 45, 46, 47, 48, 49, 50, 51, 52, lens[k] - 1, rnd.randint(24, lens[k] - 1)])]
+        elif how == "cut":
             c = ["cut", rnd.choice([0, 1, 2, 4, 8, 12, 23, 24, 25, 30, 39, 40, 41, 42, 43, 44, 45, 46, 47, 48, 49, 50, lens[k] - 1, rnd.randint(0, lens[k] - 1)])]
         elif how == "flip":
             c = ["flip", rnd.randint(24, lens[k] - 1), 1 << rnd.randint(0, 7)]
@@ -65,6 +67,62 @@ def corrupt_sessions(rnd, n):
         sc2 = json.loads(json.dumps(sc))
         sc2["id"] = sc["id"] + "c"
         sc2["family"] = "corrupt-" + how
+        sc2["target"]["corrupt"] = {str(k): c}
+        out.append(sc2)
+    return out
+
+
+def reply_ordinals(tr):
+    """Per call of a trace: api and the ordinals / lengths of the replies the target produced during it."""
+    ordinal, calls, cur = 0, [], None
+    for e in tr["events"]:
+        if e["k"] == "call":
+            cur = {"api": e["api"], "ords": [], "lens": {}}
+            calls.append(cur)
+        if e["k"] in ("rx", "lost") and cur is not None:
+            ordinal += 1
+            cur["ords"].append(ordinal)
+            cur["lens"][ordinal] = len(e["b"])
+    return calls
+
+
+def tag_corrupt_sessions(rnd, n):
+    """Logix read / write (single, fragmented, multi-service, read-modify-write) and SLC calls one of whose replies is truncated
+    (well framed, payload stops early), cut, bit-flipped or given an encapsulation error.  The corrupted call is the last
+    data call of its session: what the target did is then unknown to the caller, and only C13 is judged on it."""
+    from .. import session
+    from . import logix_rw
+    from .logix_rw import R
+    out = []
+    for i in range(n):
+        big = [{"name": "BIGC", "code": 0xC4, "dims": [rnd.choice([200, 1500])]}] if i % 3 == 0 else None
+        sc = logix_rw.session(rnd, i, prefix="tc", n_calls=2, max_reqs=6, invalid_rate=0.05, caps=False, big=big)
+        if big:
+            nel = big[0]["dims"][0]
+            extra = [S.read_call([R([("BIGC", [])], count=nel)]), S.write_call([R([("BIGC", [])], count=nel, value=list(range(nel)))])]
+            sc["calls"] = sc["calls"][:-1] + [rnd.choice(extra)] + [{"api": "close"}]
+        calls = reply_ordinals(session.run_scenario(sc))
+        idx = [j for j, c in enumerate(calls) if c["api"] in ("read", "write") and c["ords"]]
+        if not idx:
+            continue
+        j = rnd.choice(idx)
+        k = rnd.choice(calls[j]["ords"])
+        ln = calls[j]["lens"][k]
+        how = rnd.choice(["trunc", "trunc", "trunc", "trunc", "cut", "flip", "status32", "encap"])
+        if how == "trunc":
+            c = ["trunc", rnd.choice([24, 32, 40, 44, 45, 46, 47, 48, 49, 50, 51, 52, 53, 54, 55, 56, 58, 60, ln - 2, ln - 1, rnd.randint(24, ln - 1)])]
+        elif how == "cut":
+            c = ["cut", rnd.choice([0, 4, 23, 24, 44, 50, ln - 1])]
+        elif how == "flip":
+            c = ["flip", rnd.randint(24, ln - 1), 1 << rnd.randint(0, 7)]
+        elif how == "status32":
+            c = ["status32", rnd.choice([1, 0x64, 0x65, 0x10000, 0x7FFF0000])]
+        else:
+            c = ["encap", rnd.choice([1, 2, 3, 0x64, 0x65, 0x69])]
+        sc2 = json.loads(json.dumps(sc))
+        sc2["id"] = sc["id"] + "c"
+        sc2["calls"] = sc["calls"][:j + 1] + [{"api": "close"}]
+        sc2["family"] = "tag-corrupt-" + how
         sc2["target"]["corrupt"] = {str(k): c}
         out.append(sc2)
     return out
@@ -83,6 +141,7 @@ def run(ctx):
         scs += logix_rw.inject_sessions(rnd, 400 if thorough else 60)
     except ImportError:
         pass
+    scs += tag_corrupt_sessions(rnd, 1200 if thorough else 200)
     results = se.run_all(ctx, scs, "c13")
     ctx.traces = len(results)
     se.report(ctx, results, lambda r, clause, ev: {"family": r["sc"]["family"], "api": ev.get("api", ev.get("k", ""))})
